@@ -43,9 +43,16 @@ def s1(ctx, rep):
         site = {'file': f['file'], 'line': f['line']}
         if f['name'] in ITEM_VISITORS:
             parser = ITEM_VISITORS[f['name']]
-            fv = ctx.x(f)    # inlined view: a local helper combining the two tests (a method of the visitor, a free function) is seen through
-            cr = [c for c in fv['calls'] if c.get('f') == 'collect_result']
-            rep.check(len(cr) == 1 and any(x.get('f') == parser for a in cr[0].get('args', []) for x in vt.calls_in(a)) if cr else False, 'S1', f"{f['name']}:collects", f'collect_result({parser}(..))', f"{f['name']} does not hand {parser}(item) to collect_result", site)
+            # inlined view with every inherent helper of the visitor expanded (collect_result, a `collect_item(attrs, |os| parse(..))`
+            # wrapper, a combined test …): the rule looks at what happens to the parser's result, wherever that is written
+            helpers = tuple(g['name'].split('::')[-1] for g in ctx.fns(file='visitors.rs') if (g.get('self_ty') or '').startswith('TypeShareVisitor') and not g.get('trait'))
+            from .. import inline as _inl
+            fv = _inl.view(ctx, f, depth=4, force=helpers)
+            cr = [c for c in fv['calls'] if str(c.get('f')) == parser]
+            pushes = [c for c in fv['calls'] if c.get('f') == 'push' and vt.show(c.get('recv')).replace(' ', '').endswith('parsed_data')]
+            errs = [c for c in fv['calls'] if c.get('f') == 'push' and vt.show(c.get('recv')).replace(' ', '').endswith('parsed_data.errors')]
+            kept = bool(pushes) and bool(errs)
+            rep.check(len(cr) == 1 and kept, 'S1', f"{f['name']}:collects", f'{parser}(item) parsed once; Ok pushed into parsed_data, Err into parsed_data.errors', f"{f['name']} does not hand the result of {parser}(item) to the collector (parsed item pushed into parsed_data, error recorded in parsed_data.errors)", site)
             if cr:
                 frames = [fr for fr in cr[0]['guard'] if fr.get('k') == 'if']
                 item = f['params'][1]['name']
@@ -78,9 +85,24 @@ def s1(ctx, rep):
                     if names_ts:
                         return 'A-weak'
                     return '?'
+                def disj_neg(v):
+                    # ¬(¬a ∨ ¬b ∨ …) = a ∧ b ∧ … : terms of an early exit `if !a || !b { return }`; None when not of that form
+                    v = vt.unvar(v)
+                    if isinstance(v, dict) and v.get('k') == 'paren':
+                        return disj_neg(v.get('v'))
+                    if isinstance(v, dict) and v.get('k') == 'op' and v.get('op') == '||':
+                        parts = [disj_neg(a) for a in v['args']]
+                        return None if any(p_ is None for p_ in parts) else [t for p_ in parts for t in p_]
+                    if isinstance(v, dict) and v.get('k') == 'op' and v.get('op') == '!' and len(v.get('args', [])) == 1:
+                        return conj(v['args'][0])
+                    return None
                 terms, negated = [], False
                 for fr in frames:
                     if fr.get('neg'):
+                        dm = disj_neg(fr['c'])
+                        if dm is not None:
+                            terms += dm
+                            continue
                         negated = True
                     terms += conj(fr['c'])
                 kinds = sorted(classify(t) for t in terms)
@@ -93,7 +115,9 @@ def s1(ctx, rep):
             continue
         default = [c for c in f['calls'] if c.get('f') == f"syn::visit::{f['name']}"]
         if f['name'] == 'visit_file':
-            ok = len(default) == 1 and [vt.show(fr['c']).replace(' ', '') for fr in default[0]['guard'] if fr.get('k') == 'if'] == [f"self.target_os_accepted({f['params'][1]['name']}.attrs)"]
+            gtxt = [vt.show(fr['c']).replace(' ', '') for fr in default[0]['guard'] if fr.get('k') == 'if' and not fr.get('neg')] if len(default) == 1 else None
+            p1 = f['params'][1]['name']
+            ok = gtxt in ([f"self.target_os_accepted({p1}.attrs)"], [f"accept_target_os({p1}.attrs,self.parse_context.target_os)"])
             rep.check(ok, 'S1', 'visit_file:descends', 'descends under the file-level target test only', 'visit_file does not descend into the file exactly when its inner cfg attributes accept the target', site)
             continue
         uncond = [c for c in default if not [fr for fr in c['guard'] if fr.get('k') in ('if', 'arm', 'for')]]
@@ -112,16 +136,23 @@ def s1(ctx, rep):
 
 
 def s2(ctx, rep):
-    f = ctx.fn('TypeShareVisitor::collect_result', file='visitors.rs')
+    # the collector: the function of visitors.rs whose body decides what happens to a parser's Result — found by content (a
+    # match over Ok/Err whose arms push into parsed_data / parsed_data.errors), whatever it is called
+    cands = []
+    for g in ctx.fns(file='visitors.rs'):
+        for m in g['matches']:
+            if {'Ok', 'Err'} <= {v for a in m['arms'] for v in a['variants']} and 'parsed_data' in json.dumps([a['body'] for a in m['arms']]):
+                cands.append((g, m))
+    if not cands:
+        raise core.Incomplete('visitors.rs: no match over Ok/Err that stores into parsed_data found (the collector)')
+    f, m0 = cands[0]
     site = {'file': f['file'], 'line': f['line']}
-    ms = [m for m in f['matches'] if {'Ok', 'Err'} <= {v for a in m['arms'] for v in a['variants']}]
-    if not ms:
-        raise core.Incomplete('collect_result: match over Ok/Err not found')
-    for a in ms[0]['arms']:
+    cname = f['name'].split('::')[-1]
+    for a in m0['arms']:
         if a['variants'] == ['Ok']:
-            rep.check(re.search(r'parsed_data\s*\.\s*push\s*\(\s*\w+\s*\)', a['body']) is not None and a['bindings'] and a['bindings'][0]['uses'] > 0, 'S2', 'collect_result:Ok', 'parsed item pushed', 'collect_result drops successfully parsed items', site)
+            rep.check(re.search(r'parsed_data\s*\.\s*push\s*\(\s*\w+\s*\)', a['body']) is not None and a['bindings'] and a['bindings'][0]['uses'] > 0, 'S2', 'collect_result:Ok', 'parsed item pushed', f'{cname} drops successfully parsed items', site)
         if a['variants'] == ['Err']:
-            rep.check(re.search(r'errors\s*\.\s*push', a['body']) is not None and a['bindings'] and a['bindings'][0]['uses'] > 0, 'S2', 'collect_result:Err', 'error recorded', 'collect_result discards parse errors: an annotated item that cannot be generated is silently omitted instead of reported', site)
+            rep.check(re.search(r'errors\s*\.\s*push', a['body']) is not None and a['bindings'] and a['bindings'][0]['uses'] > 0, 'S2', 'collect_result:Err', 'error recorded', f'{cname} discards parse errors: an annotated item that cannot be generated is silently omitted instead of reported', site)
     p = ctx.fnx('ParsedData::push', file='parser.rs')
     ri = ctx.item('enum', 'RustItem')
     item_param = next((q['name'] for q in p['params'] if q.get('ty') == 'RustItem'), None)
